@@ -3,7 +3,9 @@
    lemma of Proofs/GreedyProofs.v or Proofs/KkProofs.v, with
    [Print Assumptions] beneath, and non-vacuity examples. *)
 From Coupe Require Import Lib.Prelude Model.NumPart Model.Greedy Model.Kk
-  Proofs.NumPartLemmas Proofs.GreedyProofs Proofs.KkProofs Gen.GreedyKkGen.
+  Proofs.NumPartLemmas Proofs.GreedyProofs Proofs.KkProofs Gen.GreedyKkGen
+  Lib.SFloat Model.ArithW Model.GreedyW Proofs.ArithWLemmas Proofs.GreedyWProofs.
+From Coq Require Import Floats.SpecFloat.
 From Coq Require Import Permutation.
 Open Scope Z_scope.
 
@@ -111,6 +113,66 @@ Proof. exact check_kk_ok. Qed.
 Print Assumptions C12_check_greedy_ok.
 Print Assumptions C12_check_kk_ok.
 
+(* ---------------- Greedy over an arbitrary weight arithmetic (integers, binary64) ---------------- *)
+
+(* [greedyW A] is greedy.rs with every `+`, `<`, `==` going through the arithmetic [A]; the loads are
+   accumulated by the SAME sequence of (rounded) additions as in the code.  Under the order laws and
+   closure of [ok] under `+` (no associativity, no exactness): the scan visits the weights in
+   non-increasing order, the array assigns each weight to a part no other part is lighter than
+   (loads accumulated in that arithmetic), and the resulting multiset of loads is that of EVERY LPT
+   run in that arithmetic (ties between equally light parts only permute the loads). *)
+Theorem C12_greedy_is_lpt_generic : forall (A : arith) (ok : W A -> Prop),
+  order_laws A ok -> add_closed A ok ->
+  forall ws k p0 p, Forall ok ws -> (2 <= k)%nat -> greedyW A ws k p0 = Ok p ->
+  let its := sort_items_descW A (items_ofW A ws) in
+  length p = length ws /\ length p = length p0
+  /\ Forall (fun x => (x < N.of_nat k)%N) p
+  /\ Permutation (wtsW A its) ws /\ descW A (wtsW A its)
+  /\ is_lpt_assign A its p (repeat (w_zero A) k)
+  /\ exists L, lpt_runW A (wtsW A its) (repeat (w_zero A) k) L
+       /\ forall L2, lpt_runW A (wtsW A its) (repeat (w_zero A) k) L2 -> Permutation L L2.
+Proof. exact greedyW_is_lpt. Qed.
+Print Assumptions C12_greedy_is_lpt_generic.
+
+(* the laws hold for the integers ... *)
+Theorem C12_Z_laws : order_laws Zarith okZ /\ add_closed Zarith okZ.
+Proof. exact (conj Z_order_laws Z_add_closed). Qed.
+(* ... and the order laws hold for binary64 on +0, the positive finite numbers and +infinity
+   ([<] of SpecFloat is a strict weak order there, and incomparable values are equal) *)
+Theorem C12_f64_order_laws : order_laws F64arith okF.
+Proof. exact F64_order_laws. Qed.
+Print Assumptions C12_f64_order_laws.
+
+(* binary64: Greedy is LPT in rounded arithmetic.  The one premise that is not proved here is the
+   IEEE-754 fact that the rounded sum of two non-negative numbers is a non-negative number (never NaN,
+   never -0.0) for SpecFloat's addition. *)
+Theorem C12_greedy_is_lpt_f64 : add_closed F64arith okF ->
+  forall ws k p0 p, Forall okF ws -> (2 <= k)%nat -> greedyW F64arith ws k p0 = Ok p ->
+  let its := sort_items_descW F64arith (items_ofW F64arith ws) in
+  length p = length ws /\ length p = length p0
+  /\ Forall (fun x => (x < N.of_nat k)%N) p
+  /\ Permutation (wtsW F64arith its) ws /\ descW F64arith (wtsW F64arith its)
+  /\ is_lpt_assign F64arith its p (repeat (S754_zero false) k)
+  /\ exists L, lpt_runW F64arith (wtsW F64arith its) (repeat (S754_zero false) k) L
+       /\ forall L2, lpt_runW F64arith (wtsW F64arith its) (repeat (S754_zero false) k) L2 -> Permutation L L2.
+Proof. exact (greedyW_is_lpt F64arith okF F64_order_laws). Qed.
+Print Assumptions C12_greedy_is_lpt_f64.
+
+Theorem C12_greedy_total_generic : forall (A : arith) (ok : W A -> Prop), order_laws A ok -> add_closed A ok ->
+  forall ws k p0, Forall ok ws ->
+  (length ws = length p0 -> exists p, greedyW A ws k p0 = Ok p)
+  /\ (length ws <> length p0 -> greedyW A ws k p0 = Err (InputLenMismatch (length p0) (length ws))).
+Proof. exact greedyW_total. Qed.
+Print Assumptions C12_greedy_total_generic.
+
+(* the checker used on f64 outputs decides "is an LPT assignment in that arithmetic" (no law needed) *)
+Theorem C12_check_greedyW_ok : forall (A : arith) ws k p,
+  check_greedyW A ws k p = true <->
+  (length p = length ws /\ Forall (fun x => (x < N.of_nat k)%N) p
+   /\ is_lpt_assign A (sort_items_descW A (items_ofW A ws)) p (repeat (w_zero A) k)).
+Proof. exact check_greedyW_ok. Qed.
+Print Assumptions C12_check_greedyW_ok.
+
 (* ---------------- non-vacuity ---------------- *)
 Example C12_nonvacuous_greedy :
   greedy [3;1;4;1;5;9;2;6] 3 [9;9;9;9;9;9;9;9]%N = Ok [1;0;0;1;0;2;2;1]%N
@@ -124,3 +186,14 @@ Example C12_nonvacuous_kk3 :
   kk_partition sort_stable_desc [3;5;3;9;7;7] 3 [9;9;9;9;9;9]%N = Ok [0;1;2;0;1;2]%N
   /\ loads [3;5;3;9;7;7] [0;1;2;0;1;2]%N 3 = [12;12;10].
 Proof. vm_compute. auto. Qed.
+(* binary64: 0.1 0.2 0.3 0.7 1.1 0.30000000000000004 on 2 parts; loads 1.3 | 1.4000000000000001 (rounded sums) *)
+Example C12_nonvacuous_greedy_f64 :
+  let ws := map (fun b => f64_of_bits b)
+              [4591870180066957722; 4596373779694328218; 4599075939470750515; 4604480259023595110;
+               4607632778762754458; 4599075939470750516]%N in
+  Forall okF ws /\ exists p, greedyW F64arith ws 2 [9;9;9;9;9;9]%N = Ok p /\ check_greedyW F64arith ws 2 p = true.
+Proof.
+  cbv zeta. split.
+  - repeat constructor.
+  - eexists. split; vm_compute; reflexivity.
+Qed.
